@@ -182,7 +182,8 @@ func TestC05(t *testing.T) {
 		if rapid.IntRange(0, 2).Draw(rt, "shuffledirs") == 0 {
 			shuffleDirs(si, rapid.Uint64().Draw(rt, "shuffleseed"))
 		}
-		target := filepath.Join(dir, "target")
+		// (the directory's own name is nobody's business: percent signs, spaces, colons)
+		target := filepath.Join(dir, rapid.SampledFrom([]string{"target", "target", "target", "100% Orange Juice", "50%", "1:x y", "a#b?c"}).Draw(rt, "targetname"))
 		Must(damaged.Materialize(target), "materialize damaged")
 		countFaults(applied)
 
